@@ -133,7 +133,7 @@ impl Check for C19 {
     }
 
     fn cases(&self, tier: Tier) -> u64 {
-        tier.pick(20_000, 600_000)
+        tier.pick(60_000, 600_000)
     }
 
     fn rule(&self) -> String {
